@@ -169,11 +169,17 @@ func isCursorInExcludedPath(cursor string, excludedPaths []string) bool {
 		return false
 	}
 	for _, path := range excludedPaths {
-		if strings.HasSuffix(path, cursor) {
+		// the cursor must be the whole path below the body root, not merely a suffix of it:
+		// excluding $.request.body.user.name must not expose a top-level "name"
+		if prefix, found := strings.CutSuffix(path, cursor); found && isJSONPathBodyRoot(prefix) {
 			return true
 		}
 	}
 	return false
+}
+
+func isJSONPathBodyRoot(prefix string) bool {
+	return prefix == "$.request.body" || prefix == "$.response.body"
 }
 
 func getKeys(object *fastjson.Object) []string {
